@@ -19,6 +19,12 @@ theorem verdict :
 #print axioms untouched_target
 #print axioms apply_refines_spec
 #print axioms apply_refines_spec_partial
+#print axioms apply_error_class
+#print axioms op_agrees
+#print axioms Hv.Patch.applyOps_agrees
+#print axioms Hv.Patch.applyOps_error_class_conv
+#print axioms Hv.Patch.noSplice_single
+#print axioms Hv.Patch.merge_rejected_class
 #print axioms witness_removeVal_container
 #print axioms not_refinesSpec_of_scalar
 #print axioms apply_refines_spec_unvalidated_partial
